@@ -66,3 +66,45 @@ Proof. vm_compute. discriminate. Qed.
 (* the refutation witness, spelled out *)
 Example ex_wit_name : name_of xxh64 (wit_build 1 2) 0 = name_of xxh64 (wit_build 2 1) 0. Proof. vm_compute. reflexivity. Qed.
 Example ex_wit_bytes : bytes_of xxh64 (wit_build 1 2) 0 <> bytes_of xxh64 (wit_build 2 1) 0. Proof. vm_compute. discriminate. Qed.
+
+(* ---- deepening round ---- *)
+From V Require Import C18.Ingredients C18.DeepProofs C19.SubstProofs.
+
+(* a clean text: two keys, the data before the second key ends with a proper beginning of the prefix *)
+Example ex_clean : clean ex_prefix 1 2 [mkPiece [105;40] 1 2; mkPiece [41;59;80;81;117;40] 0 1; mkPiece [41] 0 0].
+Proof.
+  apply clean_cons; [reflexivity|lia|intro; lia|intro; lia|vm_compute; reflexivity|].
+  apply clean_cons; [reflexivity|lia|intro; lia|intro; lia|vm_compute; reflexivity|].
+  apply clean_last. vm_compute. reflexivity.
+Qed.
+(* not clean: a self-overlapping prefix completed by the text right before the key (thorough seed 1) *)
+Example ex_not_clean_overlap : index_of [97;98;97] ([120;97;98] ++ [97;98;97]) <> Some 3%nat.
+Proof. vm_compute. discriminate. Qed.
+
+(* ingredients of a JavaScript chunk with a part in the "file" namespace, pieces and a source map *)
+Definition ex_chunk : chunk :=
+  mkChunk true [mkPart ns_file [47;97] [115;114;99;47;97] 0 3] [([97;45], 3); ([46;106;115], 0)]
+    (Some [mkPiece [105;40] 1 2; mkPiece [41] 0 0]) [] [123] [65;65] [125] [1%nat].
+Example ex_ingredients :
+  iso_ingredients [47] ex_chunk =
+  [ILen 1 ns_file; ILen 2 [115;114;99;47;97]; IU32 3 0; IU32 4 3; ILen 5 [97;45]; ILen 5 [46;106;115];
+   ILen 6 [47]; ILen 7 [105;40]; ILen 7 [41]; ILen 9 [123]; ILen 10 [65;65]; ILen 11 [125]].
+Proof. reflexivity. Qed.
+Example ex_ing_ok : Forall ing_ok (iso_ingredients [47] ex_chunk).
+Proof. repeat constructor; cbn; unfold fits32; cbn; lia. Qed.
+(* an edit of the source-map mappings only: same shape, different ingredient, different stream *)
+Definition ex_chunk' : chunk :=
+  mkChunk true [mkPart ns_file [47;97] [115;114;99;47;97] 0 3] [([97;45], 3); ([46;106;115], 0)]
+    (Some [mkPiece [105;40] 1 2; mkPiece [41] 0 0]) [] [123] [65;67] [125] [1%nat].
+Example ex_same_shape : map ishape (iso_ingredients [47] ex_chunk) = map ishape (iso_ingredients [47] ex_chunk').
+Proof. reflexivity. Qed.
+Example ex_stream_differs : isolated_stream [47] ex_chunk <> isolated_stream [47] ex_chunk'.
+Proof. vm_compute. discriminate. Qed.
+
+(* chunks 0 and 1 of ex_graph lie on a cycle (0 -> 1 -> 0): each final hash input contains the other's hash *)
+Example ex_cycle : reach ex_graph 0%nat 1%nat /\ reach ex_graph 1%nat 0%nat.
+Proof.
+  split; (eapply reach_step; [apply reach_refl|]).
+  - exists (ex_leaf [1;2]%nat [1]). split; [reflexivity|left; reflexivity].
+  - exists (ex_leaf [0;1]%nat [2]). split; [reflexivity|left; reflexivity].
+Qed.
